@@ -75,6 +75,26 @@ def isoMat (Q : Nat → Nat → α) (anis : Nat → α) (d e : Nat) : α := ((1:
 def isometrize (Q : Nat → Nat → α) (anis : Nat → α) (dim : Nat) (pos : Nat → Nat → α) (d i : Nat) : α :=
   forRange 0 dim ((0:Nat):α) fun e acc => acc + isoMat Q anis d e * pos e i
 
+/-- `givens_rotation(dim, (p, q), a)[d, e]` -/
+def givens (p q : Nat) (a : α) (d e : Nat) : α :=
+  if d = p ∧ e = p then cos a
+  else if d = q ∧ e = q then cos a
+  else if d = p ∧ e = q then -sin a
+  else if d = q ∧ e = p then sin a
+  else if d = e then ((1:Nat):α) else ((0:Nat):α)
+
+/-- `np.matmul(A, B)[d, e]` for `n × n` matrices -/
+def mulM (n : Nat) (A B : Nat → Nat → α) (d e : Nat) : α :=
+  forRange 0 n ((0:Nat):α) fun f acc => acc + A d f * B f e
+
+/-- `matrix_derotate(dim, angles)` for `dim ≤ 3`: the product over `rotation_planes(dim)` of the Givens rotations by
+    `(-1)^i · (-angles[i])` — one rotation in 2-D, `G₀₁(−α)·G₀₂(β)·G₁₂(−γ)` in 3-D, the identity in 1-D -/
+def derot (dim : Nat) (angles : Nat → α) : Nat → Nat → α :=
+  if dim = 2 then givens 0 1 (-(angles 0))
+  else if dim = 3 then
+    mulM 3 (mulM 3 (givens 0 1 (-(angles 0))) (givens 0 2 (angles 1))) (givens 1 2 (-(angles 2)))
+  else fun d e => if d = e then ((1:Nat):α) else ((0:Nat):α)
+
 /-- `Fourier.__call__(pos, add_nugget=False)`: the generated kernel on the generator's own arrays -/
 def genField (sched : Sched) (sf : Nat → α) (modes : Nat → Nat → α) (z1 z2 : Nat → α) (N : Nat)
     (pos : Nat → Nat → α) (dim X : Nat) : Nat → α :=
@@ -319,6 +339,9 @@ def ops (op : String) (j : Json) : Option (Except String Json) :=
       let dim ← getNat j "dim"; let x ← getNat j "X"
       let q ← getFloats j "Q"; let anis ← getFloats j "anis"; let pos ← getFloats j "pos"
       return fl2 (tab2 (isometrize (ofList2 q dim) (ofList anis) dim (ofList2 pos x)) dim x))
+  | "fourier_derot" => some (do
+      let dim ← getNat j "dim"; let ang ← getFloats j "angles"
+      return fl2 (tab2 (derot dim (ofList ang)) dim dim))
   | "fourier_gen" => some (do
       -- whole generator: grid from (period, anis, mode_no), spectrum factor from spectrum values, kernel
       let dim ← getNat j "dim"; let x ← getNat j "X"
@@ -332,11 +355,15 @@ def ops (op : String) (j : Json) : Option (Except String Json) :=
       let grid := ofList2 gridArr n
       let sfArr : Array Float := (tab (specFactorOf (ofList sv) dk dim) n).toArray
       let p := ofList2 pos x
-      let pp : Nat → Nat → Float := match optField j "Q" with
-        | some qj => match jFloats qj with
+      -- SRF level: isometrize first, with the derotation built here from the angles (or a given matrix)
+      let pp : Nat → Nat → Float := match optField j "angles", optField j "Q" with
+        | some aj, _ => match jFloats aj with
+          | .ok a => isometrize (derot dim (ofList a)) (ofList anis) dim p
+          | .error _ => p
+        | none, some qj => match jFloats qj with
           | .ok q => isometrize (ofList2 q dim) (ofList anis) dim p
           | .error _ => p
-        | none => p
+        | none, none => p
       let ppArr : Array Float := ((tab2 pp dim x).flatten).toArray
       let r := genField id (ofList sfArr) grid (ofList z1) (ofList z2) n (ofList2 ppArr x) dim x
       return fl (tab r x))
